@@ -28,14 +28,22 @@ type Cfg struct {
 	M          map[string]int
 	L          []int
 	P          *int
-	scn        *Scenario
+	// N is a user-declared pointer to a struct with a non-nil default: re-stacks merge into it field by field.
+	N   *Sub
+	scn *Scenario
 }
 
-// FieldNames are the settable leaves in declaration order.
-var FieldNames = []string{"A", "B", "C", "D", "S", "M", "L", "P"}
+// Sub is Cfg's nested pointer struct.
+type Sub struct {
+	X int
+	Y string
+}
+
+// FieldNames are the settable leaves in declaration order (NX, NY are N.X, N.Y).
+var FieldNames = []string{"A", "B", "C", "D", "S", "M", "L", "P", "NX", "NY"}
 
 // NumFields is len(FieldNames).
-const NumFields = 8
+const NumFields = 10
 
 // ErrInvalid is returned by Verify for configs that fail the predicate.
 var ErrInvalid = errors.New("harness: config invalid (A<0 or B<0)")
@@ -48,6 +56,11 @@ func Valid(c *Cfg) bool { return c.A >= 0 && c.B >= 0 }
 func (c *Cfg) Verify() error {
 	if s := c.scn; s != nil {
 		s.onVerify(c)
+		if f := s.forced(); f != nil {
+			if err := f(c); err != nil {
+				return err
+			}
+		}
 	}
 	if !Valid(c) {
 		return fmt.Errorf("%w: A=%d B=%d", ErrInvalid, c.A, c.B)
@@ -59,6 +72,9 @@ func (c *Cfg) Verify() error {
 type FP struct {
 	A, B, C, D int
 	S, M, L, P string
+	NX         int
+	NY         string
+	NNil       bool
 }
 
 // FPOf fingerprints a config.
@@ -84,6 +100,11 @@ func FPOf(c *Cfg) FP {
 	}
 	if c.P != nil {
 		fp.P = fmt.Sprintf("&%d", *c.P)
+	}
+	if c.N != nil {
+		fp.NX, fp.NY = c.N.X, c.N.Y
+	} else {
+		fp.NNil = true
 	}
 	return fp
 }
@@ -137,6 +158,14 @@ func (l *Layer) Apply(fp FP) FP {
 	}
 	if l.Set[7] {
 		fp.P = fmt.Sprintf("&%d", l.ID)
+	}
+	if l.Set[8] {
+		fp.NX = v + 8
+		fp.NNil = false
+	}
+	if l.Set[9] {
+		fp.NY = fmt.Sprintf("y%d", l.ID)
+		fp.NNil = false
 	}
 	return fp
 }
@@ -232,6 +261,18 @@ func (l *Layer) Materialize(t reflect.Type) reflect.Value {
 	if l.Set[6] {
 		set("L", []int{l.ID, l.ID * 10})
 	}
+	if l.Set[8] || l.Set[9] {
+		n := v.FieldByName("N")
+		n.Set(reflect.New(n.Type().Elem()))
+		if l.Set[8] {
+			x := fp.NX
+			n.Elem().FieldByName("X").Set(reflect.ValueOf(&x))
+		}
+		if l.Set[9] {
+			y := fp.NY
+			n.Elem().FieldByName("Y").Set(reflect.ValueOf(&y))
+		}
+	}
 	if l.Set[7] || l.IllTyped {
 		if l.IllTyped {
 			s := "ill"
@@ -290,12 +331,30 @@ type Scenario struct {
 	// Hook, if set, is called at every dials hook point of this scenario.
 	Hook func(name string, ctx context.Context, args []any)
 
-	dset atomic.Bool
+	forceErr func(c *Cfg) error
+	dset     atomic.Bool
 	// monInEnable: the monitor's latest received message was an
 	// EnableVerification request (its Verify call legitimately sees the
 	// installed config).
 	monInEnable atomic.Bool
 }
+
+// ForceVerifyErr installs (or with nil removes) a function that can make
+// Verify fail for reasons outside the config's content (an impure Verify).
+func (s *Scenario) ForceVerifyErr(f func(c *Cfg) error) {
+	s.mu.Lock()
+	s.forceErr = f
+	s.mu.Unlock()
+}
+
+func (s *Scenario) forced() func(c *Cfg) error {
+	s.mu.Lock()
+	defer s.mu.Unlock()
+	return s.forceErr
+}
+
+// MonInEnable reports whether the monitor's latest message was an EnableVerification request.
+func (s *Scenario) MonInEnable() bool { return s.monInEnable.Load() }
 
 // Tick returns the next logical timestamp.
 func (s *Scenario) Tick() int64 { return s.clock.Add(1) }
@@ -312,11 +371,11 @@ func NewScenario(parent context.Context) *Scenario {
 
 // Defaults returns a defaults value bound to the scenario.
 func (s *Scenario) Defaults() *Cfg {
-	return &Cfg{C: 7, S: "dflt", scn: s}
+	return &Cfg{C: 7, S: "dflt", N: &Sub{X: 5, Y: "ny"}, scn: s}
 }
 
 // DefaultsFP is the fingerprint of Defaults().
-func DefaultsFP() FP { return FP{C: 7, S: "dflt"} }
+func DefaultsFP() FP { return FP{C: 7, S: "dflt", NX: 5, NY: "ny"} }
 
 // SetDials records the Dials instance (after Config returned).
 func (s *Scenario) SetDials(d *dials.Dials[Cfg]) {
@@ -434,7 +493,10 @@ func (s *Src) Value(_ context.Context, t *dials.Type) (reflect.Value, error) {
 }
 
 // WSrc is a watching Src.
-type WSrc struct{ Src }
+type WSrc struct {
+	Src
+	last reflect.Value
+}
 
 // Watch implements dials.Watcher.
 func (s *WSrc) Watch(_ context.Context, t *dials.Type, wa dials.WatchArgs) error {
@@ -465,10 +527,30 @@ func (s *WSrc) Type() reflect.Type {
 	return s.typ.Type()
 }
 
-// Report sends a layer (blocking or not) and returns the error.
+// Report sends a layer (blocking or not) and returns the error. The value
+// is handed over as a pointer to the struct (sources may do either) and kept
+// so that ReReport can hand the very same object again.
 func (s *WSrc) Report(ctx context.Context, l *Layer, blocking bool) error {
 	v := l.Materialize(s.Type())
 	s.remember(v)
+	if v.CanAddr() && l != nil && l.ID%2 == 0 {
+		v = v.Addr()
+	}
+	s.mu.Lock()
+	s.last = v
+	s.mu.Unlock()
+	if blocking {
+		return s.WA().BlockingReportNewValue(ctx, v)
+	}
+	return s.WA().ReportNewValue(ctx, v)
+}
+
+// ReReport reports the identical value object of the previous Report again
+// (a watcher that re-sends its current state).
+func (s *WSrc) ReReport(ctx context.Context, blocking bool) error {
+	s.mu.Lock()
+	v := s.last
+	s.mu.Unlock()
 	if blocking {
 		return s.WA().BlockingReportNewValue(ctx, v)
 	}
